@@ -94,6 +94,9 @@ func NewQuery(sql string) (*Command, error) {
 }
 
 func QuoteString(str string) string {
+	// the statement is parsed by the MySQL-dialect parser, where a backslash
+	// inside a string literal is an escape character: it must be doubled too
+	str = strings.ReplaceAll(str, "\\", "\\\\")
 	return "'" + strings.ReplaceAll(str, "'", "''") + "'"
 }
 
